@@ -118,6 +118,38 @@ def run_e2e(args):
     return out
 
 
+def slow_head(a):
+    """(child) the unshuffled concurrent interface with ONE slow shard at the head of the line (its `process_record` sleeps) and fast
+    shards behind it: how many shards have been started by the time the first example arrives — with a finite and with a repeating
+    stream.  The workers that are free meanwhile may not run ahead without limit."""
+    import time, threading
+    sp.sedpack()
+    from sedpack.io import Dataset
+    root = a["root"]
+    ds, _ = I.build_dataset(root, a["fmt"], "", 2, [{"sub": ".", "writes": [(0, 2 * a["nshards"])]}])
+    ds = Dataset(root)
+    out = []
+    for repeat in (False, True):
+        started = set(); lock = threading.Lock()
+        def pr(e, _s=started):
+            i = sp.ident(e)
+            with lock: _s.add(i // 2)
+            if i // 2 == a["slow_shard"]:
+                time.sleep(a["sleep"] / 2)          # (two examples per shard)
+            return e
+        t0 = time.time()
+        it = iter(ds.as_numpy_iterator_concurrent(split="train", repeat=repeat, shuffle=0, file_parallelism=a["T"], process_record=pr))
+        first = sp.ident(next(it))
+        with lock: n0 = len(started)
+        got = [first] + [sp.ident(next(it)) for _ in range(5)]
+        with lock: n1 = len(started)
+        it.close()
+        out.append({"repeat": repeat, "first": first, "shards_started_at_first_example": n0, "after_six": n1, "got": got, "secs": round(time.time() - t0, 2)})
+        time.sleep(0.3)
+    shutil.rmtree(root, ignore_errors=True)
+    return out
+
+
 def bound_opens(iface, shuffle, T, k, eps):
     need = math.ceil(k / eps)
     if iface == "sync":
@@ -368,6 +400,14 @@ def run(ctx):
             tol = 1 if not key[0].startswith("tf") else (key[2] or (os.cpu_count() or 1)) + 2      # tf.data prefetches in its own threads: timing-dependent by a few shards (None = one worker per core)
             if max(v) - min(v) > tol and key[1] == 0:
                 ctx.report({"kind": "opens-depend-on-size", "iface": key[0]}, f"{key}: shard opens vary with the dataset size: {v}", {"case": r["case"]})
+    # ---- one slow shard at the head of the line, fast shards behind it (unshuffled concurrent interface)
+    sh = {"root": str(ctx.scratch / "c14_slowhead"), "fmt": ["npz", "fb"][ctx.seed % 2], "nshards": 60, "T": 4, "slow_shard": 0, "sleep": 1.2}
+    for r in child.call("harness.checks.c14", "slow_head", sh, timeout=600):
+        nrun += 1
+        if r["shards_started_at_first_example"] > 2 * sh["T"] + 1 or r["got"] != list(range(6)):
+            ctx.report({"kind": "opens", "iface": "concurrent", "slow_head_of_line": True, "repeat": r["repeat"]},
+                       f"concurrent shuffle=0 T={sh['T']} repeat={r['repeat']} with a slow first shard: {r['shards_started_at_first_example']} of {sh['nshards']} shards had been started when the first example arrived "
+                       f"(one batch of {sh['T']} is what the interface promises), examples {r['got']}", {"slow_head_case": {k: v for k, v in sh.items() if k != 'root'}, "run": r})
     nrust = rust_readahead(ctx)
     nvk = child.call("harness.checks.c14", "value_kinds_child", [], timeout=300)
     for v in nvk["violations"]:
